@@ -26,6 +26,7 @@ from __future__ import annotations
 import asyncio
 import socket
 import struct
+import sys
 import time
 
 from . import common as C
@@ -48,6 +49,71 @@ ASSUMPTIONS = [
     "'no exception escapes into the event loop' = nothing propagates out of datagram_received and the loop's exception handler is never called (timers armed by datagram processing included)",
     "'ignored' for an oversize datagram = no datagram sent, no callback, listener memory, cache and timers unchanged",
 ]
+
+# ------------------------------------------------------------------------------------------
+# watchdog: no call into the library may block the check
+
+
+class HangDetected(BaseException):
+    """raised by the wall-clock watchdog inside a call into the library that did not return (an unbounded loop on a defective tree);
+    a BaseException, so that no `except Exception` of the library or of the harness swallows it"""
+
+
+HANG_S = 1.5      # one datagram_received / decoder / encoder call (they take milliseconds; a 12-datagram flood with 480 records ~ 50 ms)
+CASE_S = 45.0     # one whole simulated case (they take 20-300 ms)
+_guards = []
+
+
+def _arm():
+    import signal
+    d = min(g.deadline for g in _guards) - time.time()
+    signal.setitimer(signal.ITIMER_REAL, max(d, 0.001))
+
+
+def _alarm(signum, frame):
+    now = time.time()
+    for g in _guards:
+        if g.deadline <= now + 0.0005:
+            g.deadline = now + g.seconds      # re-armed: the code that is interrupted may be called again (e.g. by the event loop)
+            g.fired += 1
+    if _guards:
+        _arm()
+    raise HangDetected()
+
+
+class Guard:
+    """`with Guard(seconds):` -- SIGALRM after `seconds` of wall clock inside the block; guards nest (the earliest deadline is armed)"""
+
+    def __init__(self, seconds):
+        self.seconds = seconds
+        self.fired = 0
+        self.on = False
+
+    def __enter__(self):
+        import signal
+        import threading
+        if threading.current_thread() is not threading.main_thread():
+            return self
+        self.on = True
+        self.deadline = time.time() + self.seconds
+        if not _guards:
+            self.old = signal.signal(signal.SIGALRM, _alarm)
+        _guards.append(self)
+        _arm()
+        return self
+
+    def __exit__(self, *a):
+        import signal
+        if not self.on:
+            return False
+        _guards.remove(self)
+        if _guards:
+            _arm()
+        else:
+            signal.setitimer(signal.ITIMER_REAL, 0)
+            signal.signal(signal.SIGALRM, self.old)
+        return False
+
 
 TA = "_a._tcp.local."
 TB = "_b._tcp.local."
@@ -196,6 +262,32 @@ def lookup_resp(rng):
     return hdr(0, 0x8400, 0, len(recs)) + b"".join(recs)
 
 
+def lookup_deadline_resp(rng):
+    """new records for the lookup in progress (SRV with a fresh port, TXT with fresh text; no address, so the lookup keeps waiting): the stream
+    does not deliver it at once but **at the wait deadline of the lookup** (kind `lookupdl`, see `w_wait` in `simulate`)"""
+    inst = wname([b"x"] + labels_of(TB))
+    host = wname([b"hx", b"local"])
+    recs = [rr(inst, 33, 0x8001, 120, struct.pack(">HHH", 0, 0, rng.randrange(1024, 65536)) + host),
+            rr(inst, 16, 0x8001, 4500, bytes([4]) + b"k=" + bytes([97 + rng.randrange(26), 97 + rng.randrange(26)]))]
+    return hdr(0, 0x8400, 0, len(recs)) + b"".join(recs)
+
+
+def nsec_packet(rng):
+    """responses with NSEC records whose type bitmaps have the block shapes a decoder loop must get through: the block python-zeroconf
+    itself emits for an IPv4-only host (window 0, length 4, AAAA bit), the same with the length byte flipped to 0 (a window block
+    without a bitmap), empty blocks before / between / after non-empty ones, windows out of order, a length that runs past the rdata"""
+    owner = wname(labels_of(rng.choice(["hx.local.", "ha.local.", "x." + TB])))
+    blocks = rng.choice([
+        [[0, 0]], [[0, 0], [0, 4, 0, 0, 0, 8]], [[0, 4, 0, 0, 0, 8], [0, 0]], [[1, 0], [0, 0]], [[0, 0], [0, 0], [0, 0]],
+        [[0, 4, 0, 0, 0, 8]], [[0, 1, 0x40], [255, 0]], [[0, 32] + [0xFF] * 32, [2, 0]], [[0, 0, 0, 0]], [[0, 200, 1, 2]],
+    ])
+    rdata = owner + bytes(b for blk in blocks for b in blk)
+    recs = [rr(owner, 47, rng.choice([0x8001, 1]), rng.choice([120, 4500, 0]), rdata)]
+    if rng.random() < 0.5:
+        recs.append(rr(b"\xc0\x0c", 1, 0x8001, 120, socket.inet_aton("10.0.0.7")))
+    return hdr(0, 0x8400, 0, len(recs)) + b"".join(recs)
+
+
 def lookup_trunc(rng):
     """a valid response for the lookup in progress (SRV x.TB -> hx.local., TXT, and a final A or AAAA record of hx.local.), cut
     at a random offset inside the rdata of the LAST record: the decoder slices silently, so the record survives with an
@@ -299,7 +391,7 @@ def addr_swap(rng):
 REP_GAPS = [300, 900, 900, 999, 1000, 1001]
 REP_SRCS = [("10.9.9.9", 40000), (PEER, 40000), ("10.7.7.7", 40001), (PEER, 53), ("10.9.9.9", 40002)]
 
-KINDS = ["cycle", "cycle", "cycle", "burst", "burst", "canrep", "canrep", "lookuptrunc", "lookuptrunc", "rand", "c02valid", "c02mut", "c02out", "c02outmut", "graph", "chain", "live", "livemut", "livemut", "query", "query", "querymut",
+KINDS = ["nsec", "nsec", "lookupdl", "lookupdl", "cycle", "cycle", "cycle", "burst", "burst", "canrep", "canrep", "lookuptrunc", "lookuptrunc", "rand", "c02valid", "c02mut", "c02out", "c02outmut", "graph", "chain", "live", "livemut", "livemut", "query", "query", "querymut",
          "resp", "hostile", "hostile", "lookup", "d8", "d8b", "oversize", "repeat"]
 
 
@@ -312,7 +404,7 @@ def gen_item(rng, live, names, last, k=None):
     from . import c02
 
     if k is None:
-        k = rng.choice([x for x in KINDS if x not in ("cycle", "burst", "bigq", "flood", "tctrain", "addrswap")])
+        k = rng.choice([x for x in KINDS if x not in ("cycle", "burst", "bigq", "flood", "tctrain", "addrswap", "lookupdl")])
     if k in ("live", "livemut") and not live:
         k = "c02mut"
     if k == "repeat" and last is None:
@@ -357,6 +449,8 @@ def gen_item(rng, live, names, last, k=None):
         d = d8_packet(rng.choice([21, 22, 40, 63] + EDGE_LABELS), rng.choice(names), rng.randrange(65536))
     elif k == "d8b":
         d = d8b_packet(rng.choice([21, 22, 30, 63] + EDGE_LABELS), rng.choice([TB, TB, TA]))
+    elif k == "nsec":
+        d = nsec_packet(rng)
     elif k == "oversize":
         base = query_packet(rng, names)
         d = base + bytes(rng.choice([MAXLEN, MAXLEN + 1, MAXLEN + 1, 9000, 20000]) - len(base))
@@ -472,8 +566,29 @@ def simulate(case):
             return r
         return f
 
+    # datagrams armed for "the next wait deadline of a waiting coroutine" (kind `lookupdl`; seeded defect C15-w4-seed3): a waiter's future
+    # that timed out (or was cancelled) stays in its set until the waiting task runs again; a response that wakes the same set in between
+    # meets a future that is done
+    dl = {"pending": [], "fire": None}
+
+    def w_wait(orig):
+        async def f(loop, future_set, timeout):
+            if dl["pending"] and dl["fire"] is not None:
+                from zeroconf._utils.time import millis_to_seconds
+                idx, data, src = dl["pending"].pop(0)
+                # the same deadline as the waiter's own timeout handle (`loop.call_later(millis_to_seconds(timeout), ...)`), scheduled BEFORE it:
+                # at the deadline this callback runs first and queues the delivery with `call_soon`; the waiter's handle then marks the future
+                # done; in the next loop iteration the datagram is handled before the waiting task is, i.e. while the done future is still in the set
+                loop.call_later(millis_to_seconds(timeout), lambda: loop.call_soon(dl["fire"], idx, data, src))
+            return await orig(loop, future_set, timeout)
+        return f
+
     async def main(sim):
+        import zeroconf._core as corem
         import zeroconf._protocol.outgoing as outm
+        import zeroconf._services.info as infm
+        patch(infm, "wait_for_future_set_or_timeout", w_wait)
+        patch(corem, "wait_for_future_set_or_timeout", w_wait)
         patch(outm.DNSOutgoing, "packets", w_packets)
         patch(rmm.RecordManager, "async_updates_from_response", w_resp)
         patch(qhm.QueryHandler, "handle_assembled_query", w_haq)
@@ -508,7 +623,12 @@ def simulate(case):
             cur["ucast"] = None
             raised = None
             try:
-                lst.datagram_received(data, src)
+                with Guard(HANG_S):
+                    lst.datagram_received(data, src)
+            except HangDetected as e:  # ... and it must return
+                raised = "HangDetected"
+                cur["exc"] = e
+                obs["hung"] = True
             except Exception as e:  # the property: nothing may come out of here
                 raised = exc_name(e)
                 cur["exc"] = e
@@ -535,10 +655,18 @@ def simulate(case):
         def host_deliver(data, src):
             # deliveries scheduled by the simulated network (the instance's own looped-back multicast): exceptions go to the loop handler
             r = deliver(data, src)
-            if r is not None:
+            if r is not None and r != "HangDetected":
                 raise cur["exc"]
 
         a.deliver = host_deliver
+
+        def dl_fire(idx, data, src):
+            r = deliver(data, src)
+            obs["kinds"]["lookupdl-fired"] = obs["kinds"].get("lookupdl-fired", 0) + 1
+            if r is not None:
+                obs["escapes"].append({"index": idx, "exc": r, "kind": "lookupdl", "len": len(data)})
+
+        dl["fire"] = dl_fire
         infos = [ServiceInfo(TA, "s%d.%s" % (i + 1, TA), 80 + i, addresses=[socket.inet_aton(SELF_IP)], server="ha.local.",
                              properties={"k": "v%d" % i}) for i in range(case["n_services"])]
         for info in infos:
@@ -629,6 +757,8 @@ def simulate(case):
                 elif kind0 == "tctrain":
                     tsrc = (rng.choice([PEER, "10.9.9.9"]), rng.choice([5353, 5353, 40000]))
                     subs = [(g, "tctrain", d, tsrc) for g, d in tc_train(rng, names)]
+                elif kind0 == "lookupdl":
+                    subs = [(rng.choice(GAPS), "lookupdl", lookup_deadline_resp(rng), (PEER, 5353))]
                 elif kind0 == "addrswap":
                     subs = [(g, "addrswap", d, (PEER, 5353)) for g, d in addr_swap(rng)]
                 else:
@@ -640,11 +770,19 @@ def simulate(case):
                     if kind == "d8":
                         src = (src[0], rng.choice([40000, 40000, 5353]))
                     subs = [(rng.choice(GAPS), kind, data, src)]
+            if obs.get("hung"):
+                break
             for gap, kind, data, src in subs:
+                if obs.get("hung"):
+                    break
                 if gap:
                     await sim.sleep_ms(gap)
                 obs["items"].append({"gap": gap, "data": data.hex(), "src": list(src), "kind": kind})
                 obs["kinds"][kind] = obs["kinds"].get(kind, 0) + 1
+                if kind == "lookupdl":
+                    # not delivered now: armed for the next wait deadline (a replay arms it at the same point of the stream)
+                    dl["pending"].append((len(obs["items"]) - 1, data, tuple(src)))
+                    continue
                 last = data
                 n_log = len(sim.net.log)
                 r = deliver(data, src)
@@ -654,6 +792,14 @@ def simulate(case):
                     obs["fam"].append({"index": len(obs["items"]) - 1, "t": sim.now(), "src": list(src),
                                        "replied": replied_to(n_log, src) if src[1] not in (5353, 0) and ":" not in src[0] else None})
         streaming["on"] = False
+        if obs.get("hung"):
+            # a call into the library did not return: the verdict is in, the rest of the case (tail, canaries) would only hang again
+            obs["live"] = len(live)
+            obs["end"] = sim.now()
+            obs["lookup"] = lookup_res
+            if lookup is not None:
+                lookup.cancel()
+            return
         await sim.sleep_ms(case["tail"])
         obs["live"] = len(live)
         # ---- canaries 1a/1b: well-formed queries are still answered -- through the aggregated multicast path (QM PTR) and through
@@ -716,7 +862,11 @@ def simulate(case):
         await zc._async_close()
 
     try:
-        sim.run(main)
+        with Guard(CASE_S):
+            sim.run(main)
+    except HangDetected:
+        obs["hung"] = True
+        obs["hang_outside_datagram"] = True
     finally:
         for cls, name, orig in saved:
             setattr(cls, name, orig)
@@ -736,12 +886,20 @@ def judge(obs):
     """list of (sig, what) -- empty when the run satisfies the property"""
     bad = []
     for e in obs["escapes"]:
+        if e["exc"] == "HangDetected":
+            bad.append(("C15:hang", "datagram_received did not return within %.0f s of wall clock (item %d, %s, %d bytes): an unbounded loop" % (HANG_S, e["index"], e["kind"], e["len"])))
+            continue
         bad.append(("C15:escape:%s" % e["exc"], "%s escaped datagram_received (item %d, %s, %d bytes)" % (e["exc"], e["index"], e["kind"], e["len"])))
+    if obs.get("hang_outside_datagram") or any(e["exc"] == "HangDetected" for e in obs.get("errors", [])):
+        bad.append(("C15:hang", "a call into the library (a timer callback, a task step or the harness's own use of the encoder / decoder) did not return within the wall-clock budget"))
+    if obs.get("hung"):
+        return bad          # the canaries were not run
     for k in ("canary_p_raised", "canary_q_raised", "canary_a_raised", "canary_c_raised"):
         if obs.get(k):
             bad.append(("C15:escape:%s" % obs[k], "%s escaped datagram_received on the canary datagram" % obs[k]))
     for e in obs["errors"]:
-        bad.append(("C15:loop-exception:%s" % e["exc"], "the loop exception handler was called: %s" % e["msg"]))
+        if e["exc"] != "HangDetected":
+            bad.append(("C15:loop-exception:%s" % e["exc"], "the loop exception handler was called: %s" % e["msg"]))
     for o in obs["oversize"]:
         bad.append(("C15:oversize-processed", "a %d-byte datagram changed the instance (sends, callbacks, listener memory, cache, timers or draws)" % o["len"]))
     if not obs.get("canary_p"):
@@ -976,7 +1134,18 @@ def run_case(res, case, ctx, acc, seen, do_min=True):
             continue
         done.add(sig)
         rc = fixed_case(case, obs["items"])
-        if do_min and seen.get(sig, 0) < 1:
+        if sig == "C15:hang":
+            # no delta debugging on a hang (every probe costs the whole watchdog budget): the replay is the datagram inside which the call
+            # did not return, alone -- checked by one more run -- or, failing that, the stream up to it
+            hung = [e for e in obs["escapes"] if e["exc"] == "HangDetected" and 0 <= e["index"] < len(obs["items"])]
+            if hung:
+                it = dict(obs["items"][hung[0]["index"]], gap=0)
+                one = fixed_case(case, [it])
+                if seen.get(sig, 0) < 1 and any(g == "C15:hang" for g, _w in judge(simulate(one))):
+                    rc = one
+                else:
+                    rc = fixed_case(case, obs["items"][:hung[0]["index"] + 1])
+        elif do_min and seen.get(sig, 0) < 1:
             try:
                 rc = minimise(case, obs, sig)
             except Exception:
@@ -1001,8 +1170,19 @@ def flush_model(res, ctx, acc, seen):
     enc_lines = ["c15enc " + C.hx(bytes.fromhex(d)) for d in datas]
     # stage O on the root-cause predicate, independent of the model
     impl_enc = {}
+    nhang = 0
     for d in datas:
-        e = encodable_impl(bytes.fromhex(d))
+        if nhang >= 2:       # a tree whose decoder / encoder loops: the verdict is in, do not spend the watchdog budget on every datagram
+            impl_enc[d] = None
+            continue
+        try:
+            with Guard(HANG_S):
+                e = encodable_impl(bytes.fromhex(d))
+        except HangDetected:
+            e = None
+            nhang += 1
+            violate_limited(res, seen, "C15:hang", "decoding a %d-byte datagram / writing its names back did not finish within %.0f s of wall clock (unbounded loop)"
+                            % (len(d) // 2, HANG_S), {"hex": d, "len": len(d) // 2})
         impl_enc[d] = e
         res.evaluations += 1
         if e is False:
@@ -1012,8 +1192,18 @@ def flush_model(res, ctx, acc, seen):
     bm_calls = []
     for d in datas:
         raw = bytes.fromhex(d)
+        if nhang >= 2:
+            break
         if b"\x00\x2f" in raw and len(raw) <= MAXLEN:
-            calls = bitmap_calls(raw)
+            try:
+                with Guard(HANG_S):
+                    calls = bitmap_calls(raw)
+            except HangDetected:
+                nhang += 1
+                sys.settrace(None)
+                violate_limited(res, seen, "C15:hang", "`_read_bitmap` did not return within %.0f s of wall clock on a %d-byte datagram (unbounded loop)" % (HANG_S, len(raw)),
+                                {"hex": d, "len": len(raw)})
+                continue
             if calls is None:
                 if not any("bitmap" in n for n in res.notes):
                     res.notes.append("_read_bitmap loop lines not found in the source: bitmap work not measured")
@@ -1077,6 +1267,7 @@ def run(ctx):
                 "valid responses holding one PTR twice (TTL 0 / > 0, both orders, cached and uncached), bursts of 3-6 valid QM queries at 0/20/50/100/400/450/480 ms gaps; "
                 "then four canaries (QM PTR and QM SRV query answered, new instance Added, cycled instance held again); non-trivial = distinct (destination tag, exception, mdns-port, unicast-reply) of a datagram block")
     acc, seen = [], {}
+    hung_cases = 0
     for name, case in corpus_cases():
         res.count("corpus")
         run_case(res, case, ctx, acc, seen, do_min=False)
@@ -1084,7 +1275,12 @@ def run(ctx):
         if time.time() - t0 > cap:
             res.notes.append("stopped after %d of %d cases: wall-clock guard of %.0f s" % (idx, n, cap))
             break
-        run_case(res, gen_case(seed, idx), ctx, acc, seen)
+        obs = run_case(res, gen_case(seed, idx), ctx, acc, seen)
+        if obs.get("hung"):
+            hung_cases += 1
+            if hung_cases >= 3:
+                res.notes.append("stopped after %d cases: %d of them contained a call into the library that did not return" % (idx + 1, hung_cases))
+                break
         if len(acc) >= 40:
             flush_model(res, ctx, acc, seen)
     flush_model(res, ctx, acc, seen)
@@ -1104,7 +1300,11 @@ def replay(body):
         return c15api.replay(body)
     if "hex" in case and "items" not in case:
         d = bytes.fromhex(case["hex"])
-        e = encodable_impl(d)
+        try:
+            with Guard(HANG_S):
+                e = encodable_impl(d)
+        except HangDetected:
+            return {"violates": True, "violations": ["C15:hang: decoding the datagram did not finish within %.0f s" % HANG_S]}
         out = {"encodable": e, "violates": e is False}
         try:
             out["model"] = C.run_driver(["c15enc " + C.hx(d)])[0]
